@@ -544,9 +544,10 @@ def option_tests(fn, locals_of_interest=None):
                         if v1 is None or v0 is None or v1 == v0:
                             continue
                         r, pl = (p[0], tuple(p)) if len(p) > 1 else root_of(p[0])
-                        out.append(dict(root=r, place=pl if len(p) == 1 else tuple(p), pos=(bb, v1), neg=(bb, v0), how="match", kind=kind))
+                        out.append(dict(root=r, place=pl if len(p) == 1 else tuple(p), pos=(bb, v1), neg=(bb, v0), how="match", kind=kind,
+                                        local=p[0] if len(p) == 1 else None))
     if locals_of_interest is not None:
-        out = [o for o in out if o["root"] in locals_of_interest or o["place"][0] in locals_of_interest]
+        out = [o for o in out if o["root"] in locals_of_interest or o["place"][0] in locals_of_interest or o.get("local") in locals_of_interest]
     return out
 
 
